@@ -148,6 +148,11 @@ def exec_case(spec):
                 res["finding"] = F_WIGN
                 res["msg"] = (res.get("msg") or "") + " | library agrees on every sample with the model in which ignore/illegal " \
                     "values are not removed from wildcard bins"
+            elif alt.get("status") == common.VIOL and alt.get("finding"):
+                # against the alternative model only another known mechanism is left: the case shows both
+                res["finding"] = cb.pick_finding("C10", {F_WIGN, alt["finding"]}, [F_POP0, F_WIGN])
+                res["msg"] = (res.get("msg") or "") + " | two known mechanisms: %s and %s (%s)" % (
+                    F_WIGN, alt["finding"], (alt.get("msg") or "")[:200])
     return res
 
 
